@@ -107,7 +107,13 @@ PtLintItem(i) ==
                              [] i = 2 -> <<A("allow", "clippy::new_without_default, non_snake_case, unused_variables")>>
                              [] i = 3 -> <<A("allow", "dead_code"), A("allow", "non_snake_case, clippy::new_without_default")>>
                              [] OTHER -> <<A("deny", "clippy::new_without_default"), A("sv::error", "ContractError")>>]
-PtFamily == {PtLintItem(i) : i \in 1..4} \cup {PtItem(mac, c) : mac \in {"contract", "interface", "entry_points"}, c \in [1..5 -> 0..PtChoices]}
+(* contracts listing several interfaces: the expansion (wrapper variants, dispatch arms, schema parts) must come out the same every time *)
+PtIfacesItem(n) ==
+    LET base == PtItem("contract", [x \in 1..5 |-> 0]) IN
+    [base EXCEPT !.id = "PI" \o ToString(n),
+                 !.attrs = <<A("sv::error", "ContractError")>>
+                           \o [i \in 1..n |-> A("sv::messages", "crate::ifaces::m" \o ToString(i) \o " as Iface" \o ToString(i))]]
+PtFamily == {PtLintItem(i) : i \in 1..4} \cup {PtIfacesItem(n) : n \in {2, 3, 5}} \cup {PtItem(mac, c) : mac \in {"contract", "interface", "entry_points"}, c \in [1..5 -> 0..PtChoices]}
 
 (* ------------------------------------------------------------------ fw *)
 Marker(i) == A("doc", "= \"m" \o ToString(i) \o "\"")
@@ -147,6 +153,20 @@ FwItem(mac, s1, s2, wrap) ==      \* two markers at two (possibly equal-kind) si
           !.self_ty = IF mac = "interface" THEN "Iface" ELSE "Ctr",
           !.members = [i \in 1..Len(ms2) |-> IF mac = "interface" THEN [ms2[i] EXCEPT !.body = ""] ELSE ms2[i]],
           !.forwards = <<[s1 EXCEPT !.m = m1] , [s2 EXCEPT !.m = m2]>>]
+(* several attributes forwarded to the type of one kind, with an attribute for another kind written between them *)
+FwTripleItem(mac, k1, k2, id) ==
+    LET ms == IF mac = "interface" THEN SelectSeq(FwMethods, LAMBDA m : m.kind \in {"exec", "query", "sudo"}) ELSE <<New>> \o FwMethods
+        ty(k, i) == A("sv::msg_attr", k \o ", " \o Marker(i).p \o " " \o Marker(i).t)
+        fw(k, i) == [site |-> "type", kind |-> k, method |-> "", param |-> "", m |-> Marker(i)]
+    IN [BaseItem(id, "fw", mac) EXCEPT
+          !.attrs = <<ty(k1, 1), ty(k2, 3), ty(k1, 2)>> \o (IF mac = "interface" THEN <<A("sv::custom", "msg = Empty, query = Empty")>> ELSE <<>>),
+          !.self_ty = IF mac = "interface" THEN "Iface" ELSE "Ctr",
+          !.members = [i \in 1..Len(ms) |-> IF mac = "interface" THEN [ms[i] EXCEPT !.body = ""] ELSE ms[i]],
+          !.forwards = <<fw(k1, 1), fw(k2, 3), fw(k1, 2)>>]
+FwTripleKinds(mac) == IF mac = "interface" THEN {"exec", "query", "sudo"} ELSE {"instantiate", "exec", "query", "sudo", "migrate"}
+FwTripleSeq(mac) == SetToSeq({<<a, b>> \in FwTripleKinds(mac) \X FwTripleKinds(mac) : a # b})
+FwTriples == UNION {{FwTripleItem(mac, FwTripleSeq(mac)[i][1], FwTripleSeq(mac)[i][2], "FT" \o (IF mac = "contract" THEN "c" ELSE "i") \o ToString(i)) :
+                        i \in 1..Len(FwTripleSeq(mac))} : mac \in {"contract", "interface"}}
 FwSitesFor(mac) == IF mac = "interface"
                    THEN {s \in FwSites : s.kind \in {"exec", "query", "sudo", "reply"} \/ s.site = "type"}
                    ELSE FwSites
@@ -184,9 +204,17 @@ GenRespItem(tq, tr, id) ==
                                          !.ret = "Audited<" \o TP(GenParams) \o ">"]]
 RespTypes == {TyNone} \cup {TyDirect(TP(i)) : i \in 1..GenParams}
 GenSeq == SetToSeq(ArgTypes \X ArgTypes \X ArgTypes \X RespTypes)
+(* a parameter that occurs only inside an argument whose type is not a path at the top level: a tuple, an array, a parenthesised type *)
+TyTuple(t) == [ty |-> "(" \o t \o ", u64)", mentions |-> <<t>>]
+TyArr(t) == [ty |-> "[" \o t \o "; 2]", mentions |-> <<t>>]
+TyParen(t) == [ty |-> "(" \o t \o ")", mentions |-> <<t>>]
+NonPathTypes == UNION {{TyTuple(TP(i)), TyArr(TP(i)), TyParen(TP(i))} : i \in 1..GenParams}
+GenNonPathSeq == SetToSeq(NonPathTypes \X {1, 2, 3})
+GenNonPathItem(t, pos, id) == GenItem(IF pos = 1 THEN t ELSE TyNone, IF pos = 2 THEN t ELSE TyNone, IF pos = 3 THEN t ELSE TyNone, TyNone, id)
 GenRespSeq == SetToSeq({TyNone, TyDirect(TP(1))} \X {TyNone, TyDirect(TP(1))})
 GenFamily == {GenItem(GenSeq[i][1], GenSeq[i][2], GenSeq[i][3], GenSeq[i][4], "G" \o ToString(i)) : i \in 1..Len(GenSeq)}
         \cup {GenRespItem(GenRespSeq[i][1], GenRespSeq[i][2], "GR" \o ToString(i)) : i \in 1..Len(GenRespSeq)}
+        \cup {GenNonPathItem(GenNonPathSeq[i][1], GenNonPathSeq[i][2], "GN" \o ToString(i)) : i \in 1..Len(GenNonPathSeq)}
 
 
 (* ---------------------------------------------------------------- rule *)
@@ -239,6 +267,14 @@ RuleFamily == {
     Bad(ReplyHost, "X_datainstraw", "sv_data_instantiate_with_raw", AddMember(ReplyHost, RH("on_done", "success", <<DataP(A("sv::data", "instantiate, raw")), RawP>>))),
     Bad(ReplyHost, "X_payloadempty", "sv_payload_without_argument", AddMember(ReplyHost, RH("on_done", "success", <<[P("payload", "Binary") EXCEPT !.attrs = <<A("sv::payload", "")>>]>>))),
     Bad(ReplyHost, "X_payloadarg", "unknown_sv_payload_argument", AddMember(ReplyHost, RH("on_done", "success", <<[P("payload", "Binary") EXCEPT !.attrs = <<A("sv::payload", "foo")>>]>>))),
+    \* data / payload markers on handlers that are no reply handlers: the expansion itself raises nothing, the program must
+    \* not compile all the same (expect = "rustc": an error of the compiler inside the offending method)
+    [Bad(RuleHost, "X_mk_exec", "payload_marker_on_exec_handler",
+         SetMember(RuleHost, 3, [RuleHost.members[3] EXCEPT !.params = <<P("x", "u32"), RawPn("tag")>>])) EXCEPT !.expect = "rustc"],
+    [Bad(RuleHost, "X_mk_inst", "data_marker_on_instantiate_handler",
+         SetMember(RuleHost, 2, [RuleHost.members[2] EXCEPT !.params = <<P("a", "u32"), DataP(A("sv::data", "raw"))>>])) EXCEPT !.expect = "rustc"],
+    [Bad(IfaceHost, "X_mk_ifq", "data_marker_on_interface_query",
+         SetMember(IfaceHost, 2, [IfaceHost.members[2] EXCEPT !.params = <<P("q", "u32"), DataP(A("sv::data", ""))>>])) EXCEPT !.expect = "rustc"],
     \* two methods claiming the same reply name and outcome; merged methods with different payloads
     Bad(ReplyHost, "X_r_overlap", "two_methods_for_one_reply_name_and_outcome",
         AddMember(AddMember(ReplyHost, RH2("on_ok", "success", <<P("tag", "Binary")>>)), RH2("on_err", "success", <<P("tag", "Binary")>>))),
@@ -288,6 +324,9 @@ SitesOf(rule) ==
                    "sylvia_attribute_on_ctx"} -> <<"foo">>
       [] rule = "sv_attr_on_instantiate" -> <<"instantiate">>
       [] rule = "query_with_aliased_result_and_no_resp" -> <<"ask">>
+      [] rule = "payload_marker_on_exec_handler" -> <<"foo">>
+      [] rule = "data_marker_on_instantiate_handler" -> <<"instantiate">>
+      [] rule = "data_marker_on_interface_query" -> <<"ask">>
       [] rule \in {"unknown_reply_on", "reply_without_payload", "data_marker_not_first", "data_marker_on_error_handler",
                    "parameter_after_raw_payload", "parameter_before_raw_payload", "unknown_sv_data_argument",
                    "sv_data_instantiate_with_raw", "sv_payload_without_argument", "unknown_sv_payload_argument"} -> <<"on_done">>
@@ -300,7 +339,7 @@ SitesOf(rule) ==
 WithSites(it) == it @@ [sites |-> SitesOf(it.rule)]
 
 (* ---------------------------------------------------------------- model *)
-Items == TLCEval(SetToSeq({WithSites(it) : it \in EpFamily \cup PtFamily \cup FwFamily \cup GenFamily \cup RuleFamily}))
+Items == TLCEval(SetToSeq({WithSites(it) : it \in EpFamily \cup PtFamily \cup FwFamily \cup FwTriples \cup GenFamily \cup RuleFamily}))
 
 VARIABLES item,      \* index into Items
           stage,     \* "source" | "expanded"
